@@ -286,7 +286,8 @@ func unwrapFields(v reflect.Value) []reflect.Value {
 
 	for i := 0; i < indirect.NumField(); i++ {
 		child := indirect.Field(i)
-		if child.Kind() == reflect.Ptr && child.IsNil() {
+		// 未导出的空指针字段（如 time.Time 的 loc）无法通过反射赋值，保持原样，由后续映射报告不可读
+		if child.Kind() == reflect.Ptr && child.IsNil() && child.CanSet() {
 			baseValueType := mapping.Deref(child.Type())
 			child.Set(reflect.New(baseValueType))
 		}
